@@ -38,6 +38,10 @@ def _single_return(v):
 def each(v, t):
     return v.ctx.mk(("iter", ()), (t,))
 
+AUTOMUT_TRIAGE = [
+    (r"Region\.ndim$", r"attribute pmin->pmax", "equivalent: both corners have the same length"),
+]
+
 
 def run(chk):
     repo = chk.repo
@@ -74,6 +78,7 @@ def run(chk):
     geom._mesh_store_values(chk, "C01")
     d9_roundtrip(chk, repo)
     d10_argument_dispatch(chk, repo)
+    d11_region_constructions(chk, repo)
     chk.trust("np.floor / np.clip / np.linspace / itertools.product semantics as documented (product: last factor fastest)")
     chk.assume("every floating-point aspect is undecided: which way floor rounds on a cell face, the 0.1% divisibility and "
                "tolerance_factor accept/reject boundaries, exact tiling in floats")
@@ -320,3 +325,28 @@ def d10_argument_dispatch(chk, repo):
         c.eq(c.ev.term(conds[1].test, at=conds[1]), c.spec("isinstance(other, self.__class__)"))
     chk.ob("region.Region.__contains__::dispatch", okc, "C01.D10",
            "points (numbers / iterables) use the coordinate test, regions the two-corner test", c.f)
+
+
+def d11_region_constructions(chk, repo):
+    """every Region the mesh/region code builds is given both corners (p1 and p2, or pmin and pmax)"""
+    chk.rule("C01.D11", "no Region construction in mesh.py/region.py can fail by construction: both corners are supplied "
+                        "(p1 and p2, or pmin and pmax); Mesh.__init__ forwards its own p1/p2")
+    n = 0
+    for fi in sorted(repo.funcs.values(), key=lambda f: f.qual):
+        if fi.module.name not in ("mesh", "region") or fi.parent is not None:
+            continue
+        v = FV(repo, fi.qual)
+        for i, s in enumerate(v.ctor_sites(REGION)):
+            n += 1
+            have = set(s.args)
+            ok = s.has_starstar or {"p1", "p2"} <= have or {"pmin", "pmax"} <= have
+            chk.ob(f"{fi.qual}::region-ctor#{i}::both-corners", ok, "C01.D11",
+                   f"`{v.src(s.call)}` supplies {sorted(have & {'p1', 'p2', 'pmin', 'pmax'})}", v.f, s.call, nontrivial=False)
+            stored = isinstance(s.stmt, ast.Assign) and any(
+                isinstance(t_, ast.Attribute) and isinstance(t_.value, ast.Name) and t_.value.id == "self"
+                and t_.attr in ("_region", "region") for t_ in s.stmt.targets)
+            if fi.qual == "mesh.Mesh.__init__" and ok and not s.has_starstar and stored:
+                fw = {v.show(s.args.get("p1")), v.show(s.args.get("p2"))} == {"param:p1", "param:p2"}
+                chk.ob("mesh.Mesh.__init__::region-from-own-corners", fw, "C01.D11",
+                       f"`{v.src(s.call)}`: the mesh's region must span the two corner points it was given", v.f, s.call)
+    chk.require(n >= 8, f"C01.D11: only {n} Region constructions found in mesh.py/region.py (floor 8)")
